@@ -60,7 +60,7 @@ def cases(draw, tier):
     elif entry in ("inv", "solve", "logdet"):
         struct = draw(st.sampled_from(["kron", "bd", "bd_of_kron", "kron_of_bd", "prod_kron_diag", "scaled_kron"]))
     elif entry in ("diag", "trace"):
-        struct = draw(st.sampled_from(["kron", "kronsum", "bd", "sum_kron_diag", "bd_of_kron"]))
+        struct = draw(st.sampled_from(["kron", "kronsum", "bd", "sum_kron_diag", "bd_of_kron"] + (["kron_huge"] if entry == "trace" else [])))
     elif unary:
         opts = ["bd", "diag", "bd"]  # (Transpose/Adjoint wrappers would enter the shim's dense linear_transpose: excluded by construction)
         if entry == "exp":
@@ -69,6 +69,8 @@ def cases(draw, tier):
             opts += ["kron", "kron"]
         if entry == "pow":
             opts += ["cong_kron_diag"]  # D K D declared SelfAdjoint: power -1 is the factor-wise inverse
+        if entry in ("exp", "apply_unary"):
+            opts += ["bd_selfadj_small"]  # below the 10^6-entry switch: blocks declared SelfAdjoint (indefinite), not PSD
         struct = draw(st.sampled_from(opts))
     else:
         struct = draw(st.sampled_from(["kron", "bd", "bd_of_kron", "kron_of_bd", "diag"]))
@@ -147,6 +149,16 @@ def build(case):
             leaves.append(p.nbytes * 2)
             A = ops.Permutation(p, dtype=K.dtype) @ A @ ops.Tridiagonal(np.ones(K.shape[0] - 1, dtype=K.dtype), 3 * np.ones(K.shape[0], dtype=K.dtype), np.ones(K.shape[0] - 1, dtype=K.dtype))
             leaves.append(3 * d.nbytes)
+    elif s == "kron_huge":
+        # n = 30^4 = 810000: the trace is the product of four factor traces; even an O(n) work vector is 6.5 MB
+        A = kron((30, 30, 30, 30))
+    elif s == "bd_selfadj_small":
+        # n = 6 * 120 = 720 < 1000: the whole operator is below the size at which Auto switches algorithm
+        Bm = rng.standard_normal((6, 6))
+        Bm = (Bm + Bm.T) / 2
+        leaves.append(Bm.nbytes)
+        A = ops.BlockDiag(cola.SelfAdjoint(ops.Dense(Bm)), multiplicities=[120])
+        unit = 6
     elif s == "cong_kron_diag":
         K = kron(fact)
         d = 1.0 + rng.random(K.shape[0])
@@ -258,7 +270,7 @@ def check(case, out):
         # no refusal is legitimate
         out.fail("call", site, oracle.exc_man(e), e)
         return
-    allowed = x.nbytes + nbytes_of(res) + leaf_bytes + unit_bytes * (8 if unit_bytes else 0)
+    allowed = (0 if entry in ("trace", "logdet") else x.nbytes) + nbytes_of(res) + leaf_bytes + unit_bytes * (8 if unit_bytes else 0)
     bound = 16 * allowed + 256 * 1024
     out.label("units:%d" % min(64, int(peak / max(allowed, 1))))
     if bound > dense_bytes / 4:
@@ -269,7 +281,7 @@ def check(case, out):
                  f"peak {peak / 1e6:.2f} MB > bound {bound / 1e6:.2f} MB (one dense n x n array = {dense_bytes / 1e6:.1f} MB, n = {n})")
 
 
-def deterministic(tier, seed, open_findings):
+def control_measurement():
     """control measurement: a deliberate densification must be visible to the meter."""
     from cvh import runner
     import cola
@@ -279,3 +291,70 @@ def deterministic(tier, seed, open_findings):
     if peak < 0.9 * want:
         raise runner.HarnessError(f"control measurement failed: to_dense() of a 1024 x 1024 operator registered only {peak} bytes")
     return {"control_to_dense_peak_bytes": int(peak), "control_expected_bytes": want}
+
+
+# ----------------------------------------------------------------------------- deterministic grid
+STRUCTS_FOR = {
+    "matvec": ["kron", "kronsum", "bd", "bd_of_kron", "kron_of_bd", "sum", "prod"],
+    "inv": ["kron", "bd", "bd_of_kron", "kron_of_bd", "prod_kron_diag", "scaled_kron"],
+    "solve": ["kron", "bd", "bd_of_kron", "kron_of_bd", "prod_kron_diag", "scaled_kron"],
+    "logdet": ["kron", "bd", "bd_of_kron", "kron_of_bd", "prod_kron_diag", "scaled_kron"],
+    "diag": ["kron", "kronsum", "bd", "sum_kron_diag", "bd_of_kron"],
+    "trace": ["kron", "kronsum", "bd", "sum_kron_diag", "bd_of_kron", "kron_huge"],
+    "exp": ["bd", "diag", "kronsum", "bd_selfadj_small"], "log": ["bd", "diag"], "apply_unary": ["bd", "diag", "bd_selfadj_small"],
+    "sqrt": ["bd", "diag", "kron"], "isqrt": ["bd", "diag", "kron"], "pow": ["bd", "diag", "kron", "cong_kron_diag"],
+    "cholesky": ["kron", "bd", "bd_of_kron", "kron_of_bd", "diag"], "plu": ["kron", "bd", "bd_of_kron", "kron_of_bd", "diag"],
+}
+
+
+def grid(tier):
+    """every (entry point, structure, algorithm argument) combination once, on one fixed factorisation."""
+    cases = []
+    for entry, structs in STRUCTS_FOR.items():
+        for struct in structs:
+            algs = [(False, "Auto")]
+            if entry not in ("matvec", "cholesky", "plu"):
+                algs += [(True, a) for a in (["Auto"] if entry in ("diag", "trace") else ["Auto", "LU", "Cholesky", "Eig", "Eigh"])]
+            for with_alg, alg in algs:
+                for expo in ([1.5, -1, -2, 10] if entry == "pow" else [1.5]):
+                    for fact in ([FACT2[0], FACT3[0]] if struct in ("kron", "kronsum") and tier != "quick" else [FACT2[0]]):
+                        cases.append({"entry": entry, "struct": struct, "fact": fact, "block": 8, "seed": 7, "ncol": 0, "with_alg": with_alg,
+                                      "cplx": False, "alg": alg, "exponent": expo if struct != "cong_kron_diag" else -1})
+    return cases
+
+
+def _grid_worker(case):
+    from cvh import runner
+    runner.setup_cola()
+    out = runner.Outcome()
+    try:
+        check(case, out)
+    except Exception as e:  # harness problem: surface it
+        out.fail("harness", "grid", type(e).__name__, str(e))
+    return case, out.failures, out.inconclusive
+
+
+def deterministic(tier, seed, open_findings):
+    import multiprocessing as mp
+    import os
+    from cvh import runner
+    cases = grid(tier)
+    nproc = int(os.environ.get("VERIF_SHARDS", "16"))
+    with mp.get_context("fork").Pool(nproc) as pool:
+        results = pool.map(_grid_worker, cases, chunksize=1)
+    violations, seen, excluded, inconcl = [], set(), {}, 0
+    for case, failures, inc in results:
+        inconcl += inc
+        unknown = []
+        for f in failures:
+            kid = runner.known_id(open_findings, f)
+            if kid:
+                excluded[kid] = excluded.get(kid, 0) + 1
+            else:
+                unknown.append(f)
+        if unknown and runner.sig(unknown[0]) not in seen:
+            seen.add(runner.sig(unknown[0]))
+            violations.append({"case": case, "failures": unknown})
+    extra = control_measurement()
+    return {**extra, "grid_cases": len(cases), "grid_inconclusive": inconcl, "grid_exhaustive": "every (entry point, structure, algorithm argument) combination on one fixed factorisation",
+            "violations": violations[:20], "deterministic_excluded_known": excluded}
